@@ -24,12 +24,12 @@ def scenario_set(thorough):
            "map-task", "map-task-mc1", "map-pass"]
     if thorough:
         ids += ["two-execs", "par-task-next", "par-wait-task", "nested", "par-2step", "par-fail-unhandled",
-                "map-fail-one", "par-inner-catch", "express-chain"]
+                "map-fail-one", "par-inner-catch", "express-chain", "choice-after-task", "par-choice", "choice-nomatch"]
     return [base[i] for i in ids]
 
 
-CRASH_MODEL_QUICK = ["task-chain", "task-fails", "par-pass"]
-CRASH_MODEL_THOROUGH = CRASH_MODEL_QUICK + ["wait-chain", "task-timeout", "task-retry", "map-pass", "pass-chain", "task-task", "task-catch", "par-task-end"]
+CRASH_MODEL_QUICK = ["task-chain", "task-fails", "par-pass", "choice"]
+CRASH_MODEL_THOROUGH = CRASH_MODEL_QUICK + ["wait-chain", "task-timeout", "task-retry", "map-pass", "pass-chain", "task-task", "task-catch", "par-task-end", "choice-nomatch"]
 
 
 def crash_model_stage(thorough, base, work, add_model_run):
